@@ -16,7 +16,10 @@ EXPLANATION = (
     "exactly count values, refuse inputs one byte short without reading past them; "
     "BYTE_STREAM_SPLIT encoders/decoders require and produce count*width bytes; (3) no implicit "
     "64->32-bit integral narrowing of a non-constant occurs in the encoders/decoders (a width or "
-    "length computed in 64 bits is never silently truncated; explicit casts are the repo's idiom). "
+    "length computed in 64 bits is never silently truncated; explicit casts are the repo's idiom); (4) in the incremental codecs "
+    "(DELTA_BYTE_ARRAY) the local that carries the previous element is advanced on every path through "
+    "the loop body, in the encoder and in the decoder, so both measure prefixes against the immediate "
+    "predecessor. "
     "Decides these clauses, not value equality of decode(encode(v)) for DELTA_*, dictionary or RLE.")
 
 RLE = "src/encoding/rle.c"
@@ -65,11 +68,17 @@ def run(ctx):
     ctx.clause("C11.1 hybrid encoder never pads mid-stream")
     ctx.clause("C11.2 count-driven codecs: produced = consumed = count*width, exact extents (skeleton)")
     ctx.clause("C11.3 no implicit 64->32 narrowing in encoders/decoders")
+    ctx.clause("C11.4 incremental codecs advance their predecessor reference on every iteration (encoder and decoder)")
     run_pad_rule(ctx)
 
     # ---- (2) skeleton size agreement
     _plain(ctx)
     _bss(ctx)
+
+    # ---- (4) carried predecessor references
+    from ..rules import carried
+    nc = carried.check(ctx, P.funcs_under("src/encoding/"))
+    ctx.floor("C11 loop-carried predecessor references", nc, 4)
 
     # ---- (3) implicit narrowing
     nn = 0
